@@ -156,7 +156,10 @@ func runHistory(dir string, seed uint64, spec PropSpec, shipped string) (*Case, 
 	if forceBackend != "" {
 		g.p.Backends = []string{forceBackend}
 	}
-	e := &Env{dir: dir, stats: g.stats, faultCtl: spec.Profile.Faults}
+	// store failures are injected through an interposer around the backing store; the library
+	// behaves differently when it recognises the store's concrete type (*sif.Buffer, *os.File), so
+	// only a third of the histories of a fault-injecting campaign run behind the interposer
+	e := &Env{dir: dir, stats: g.stats, faultCtl: spec.Profile.Faults && r.Chance(1, 3)}
 	defer e.Close()
 	c := &Case{Seed: seed}
 	var vs []*Violation
@@ -404,7 +407,7 @@ func runHistory(dir string, seed uint64, spec PropSpec, shipped string) (*Case, 
 				hdr0 = append([]byte(nil), b[:128]...)
 			}
 		}
-		if spec.Profile.Faults && isMutator(op.Kind) && e.ctl != nil && !truncated && r.Chance(1, 8) {
+		if spec.Profile.Faults && isMutator(op.Kind) && e.ctl != nil && !truncated && r.Chance(1, 4) {
 			// the backing store fails one of this operation's calls (chosen among those a dry run on
 			// a copy shows it issues); the history goes on with the same handle
 			if evs := e.dryRunCalls(op); len(evs) > 0 {
